@@ -34,7 +34,20 @@ func populate(v reflect.Value, rg *rand.Rand, depth int) {
 	case reflect.Int, reflect.Int64, reflect.Int32:
 		v.SetInt(int64(rg.Intn(1 << 20)))
 	case reflect.String:
-		v.SetString(fmt.Sprintf("s%x.example", rg.Int31()))
+		// host-name shaped values of every kind a caller may put there: the conversions must copy
+		// them verbatim (normalisation is the business of the SNI extension, not of a view)
+		switch rg.Intn(8) {
+		case 0:
+			v.SetString([]string{"192.0.2.7", "2001:db8::7", "[2001:db8::7]", "fe80::1%eth0", "127.0.0.1"}[rg.Intn(5)])
+		case 1:
+			v.SetString(fmt.Sprintf("s%x.example.", rg.Int31())) // trailing dot
+		case 2:
+			v.SetString("")
+		case 3:
+			v.SetString(fmt.Sprintf("S%X.Example", rg.Int31())) // upper case
+		default:
+			v.SetString(fmt.Sprintf("s%x.example", rg.Int31()))
+		}
 	case reflect.Slice:
 		if depth > 4 {
 			return
